@@ -7,8 +7,8 @@ LEVEL_TEXT = ("Bounded model checking of each real data source against an enviro
               "descriptor / variable / format, with every environment call able to fail. What a solver can decide is this binding; that the "
               "kernel answers truthfully is trusted.")
 LEVEL_NOTE = ("Trusted: CBMC, models vsys.c / vlibc.c. ids range over 16-bit symbols in these queries (decimal rendering is solver-hard; the "
-              "binding does not depend on magnitude), names up to 7 bytes, buffer 24 bytes (real sizes are C02's queries). cgroup, rpname, "
-              "domain, ipaddr, systemd_unit_name are covered at memory-safety level only (C02).")
+              "binding does not depend on magnitude), names up to 7 bytes, buffer 24 bytes (real sizes are C02's queries). rpname: procfs modelled line by line "
+              "in the harness, process tree of depth 1..2; cgroup: util/file.c's reader stubbed, 2-line file. domain, ipaddr, systemd_unit_name are not claimed here.")
 ASSUMPTIONS = [
     "environment answers come from the ghost record v_sys (models/vsys.c); every lookup may fail by symbolic choice",
     "ids are 16-bit symbols, strings up to 7 bytes; result buffer 24 bytes; PATH_MAX-sized scratch arrays of tty/cwd sources scaled to 40 bytes in the preprocessed text (CBMC array threshold)",
@@ -37,9 +37,20 @@ def queries(ctx):
                     defines=("DS_%s=1" % name, "V_NCH=6", "VL_MEMCPY_LOOP=1"), unwind=26, unwindset=("v_put_udec.0:2", "v_put_udec.1:2", "v_put_udec.2:2", "strncpy.0:260", "strlen.0:260", "v_format.3:44"),
                     flags=("--object-bits", "10", "--memory-leak-check"), timeout=600, mem_gb=4,
                     bounds="data source %s: all identity/environment answers symbolic and independent, every lookup may fail" % name))
-    # rpname / cgroup: a DS_rpname harness exists in C12_datasources.c, but every formulation tried (symbolic and concrete name
-    # lengths, no faults, NAME_MAX scaled, recursion bounded by a global unwind of 4) exhausted 8 GB: getline-allocated line
-    # buffers + recursion over /proc/<pid>/status readers are outside what CBMC reaches here.  Not claimed (DESIGN section 3, C12).
+    # rpname: procfs modelled line by line in the harness (the general stream model does not finish on this unit); recursion of
+    # get_rpname bounded to the two-level tree of the harness
+    qs.append(Q(name="ds_rpname", harness="C12_datasources.c", units=[Unit("src/datasource/rpname.c", sed=((r"\b255\b", "15"),))], models=("vlibc.c", "vsys.c"),
+                defines=("DS_rpname=1", "V_NCH=6", "VL_MEMCPY_LOOP=1"), unwind=18, unwindset=("get_rpname:3", "read_proc_property.0:5", "strncpy.0:18", "v_format.3:44"),
+                flags=("--object-bits", "10", "--memory-leak-check"), timeout=900, mem_gb=8,
+                bounds="data source rpname: process tree of depth 1 or 2 below pid 1/0, status files of 3 lines, names of 1..4 arbitrary bytes "
+                       "(no newline/NUL), every fopen may fail; NAME_MAX scaled to 15 in the preprocessed text"))
+    qs.append(Q(name="ds_cgroup", harness="C12_datasources.c", units=["src/datasource/cgroup.c", "src/util/string.c"], models=("vlibc.c", "vsys.c"),
+                defines=("DS_cgroup=1", "V_NCH=6", "VL_MEMCPY_LOOP=1"), unwind=22,
+                unwindset=("v_format.3:44", "strnlen.0:26", "snoopy_util_string_findLineStartingWith.0:8", "strstr.0:7", "snoopy_datasource_cgroup.0:4", "doesCgroupEntryContainController.0:6"),
+                flags=("--object-bits", "10", "--memory-leak-check"), timeout=900, mem_gb=8,
+                bounds="data source cgroup: cgroup file of 2 lines '<digit>:<4 bytes of controller list>:<2 bytes of path>', all bytes symbolic "
+                       "(commas anywhere in the list, colons and digits in the path), argument of 1..4 symbolic bytes (number or name), the read may fail; "
+                       "util/file.c's reader stubbed (its memory safety is C02's)"))
     q = [x for x in qs if x.name == "ds_env_all"][0]
     import dataclasses
     qs.append(dataclasses.replace(q, name="ds_env_all_cleared", defines=tuple(q.defines) + ("ENV_NULL=1",), bounds="data source env_all with environ == NULL (process called clearenv())"))
